@@ -727,6 +727,70 @@ def c11_history(case):
             pass
         reset_table()
 
+
+# ---------------------------------------------------------------------------
+# C14
+
+
+def _wf_split(s):
+    out, i, n = [], 0, len(s)
+    while i < n:
+        if s[i] != "[":
+            return None
+        j = i + 1
+        while j < n and s[j] != "]":
+            if s[j] in "[.":
+                return None
+            j += 1
+        if j >= n:
+            return None
+        out.append(s[i:j + 1])
+        i = j + 1
+        if i < n and s[i] == ".":
+            if i + 1 >= n:
+                return None
+            out.append(".")
+            i += 1
+    return out
+
+
+def c14_utils(case):
+    strs = case["strings"]
+    wants = [_wf_split(s) for s in strs]
+    if any(w is None for w in wants):
+        return ok("not well-formed: outside the precondition")
+    for s, w in zip(strs, wants):
+        try:
+            items = list(sf.split_selfies(s))
+        except Exception as ex:  # noqa
+            return bad("C14:split-raises", "split_selfies(%r) raised %r" % (s, ex))
+        if items != w or "".join(items) != s:
+            return bad("C14:split", "split_selfies(%r) = %r, expected %r" % (s, items, w))
+        if sf.len_selfies(s) != len(w):
+            return bad("C14:len", "len_selfies(%r) = %d but split_selfies yields %d items" % (s, sf.len_selfies(s), len(w)))
+    want = set()
+    for w in wants:
+        want |= set(w)
+    want.discard(".")
+    got = sf.get_alphabet_from_selfies(strs)
+    if got != want:
+        return bad("C14:alphabet", "get_alphabet_from_selfies(%r) = %r, expected %r" % (strs, sorted(got), sorted(want)))
+    return ok()
+
+
+def c14_enc(case):
+    reset_table()
+    try:
+        out = sf.encoder(case["smiles"], strict=False)
+    except sf.EncoderError:
+        return ok()
+    w = _wf_split(out)
+    if w is None:
+        return bad("C14:encoder-output-malformed", "encoder(%r) = %r is not a well-formed SELFIES string" % (case["smiles"], out))
+    if list(sf.split_selfies(out)) != w:
+        return bad("C14:split", "split_selfies(%r) differs from the independent scan" % out)
+    return ok()
+
 # ---------------------------------------------------------------------------
 
 KINDS = {
@@ -744,6 +808,8 @@ KINDS = {
     "attr_encoder": c17_encoder,
     "config_history": c12_history,
     "pure_history": c11_history,
+    "tok_utils": c14_utils,
+    "enc_wellformed": c14_enc,
     "state_fn": lemma_state_fn,
     "ring_step": lemma_ring_step,
 }
